@@ -124,8 +124,31 @@ fn perform(action: &str, seed: u64, idx: u64, rep: &mut Rep, ctl: &ObsCtl, serve
             };
             block_on_until(rep.sync(&mut server, false), || ctl.parked()).map(|r| r.map_err(|e| e.to_string()))
         }
+        "fresh-sync" => {
+            // a brand-new replica syncs from an HTTP server that holds a snapshot and later versions
+            let rt = match tokio::runtime::Builder::new_current_thread().enable_all().build() {
+                Ok(rt) => rt,
+                Err(e) => return Some(Err(format!("HARNESS tokio runtime: {e}"))),
+            };
+            let url = server_dir.to_str().unwrap_or("").to_string();
+            let mut server = match rt.block_on(http_cfg(&url).into_server()) {
+                Ok(s) => s,
+                Err(e) => return Some(Err(format!("HARNESS open http server: {e}"))),
+            };
+            let ctl2 = ctl.clone();
+            rt.block_on(async {
+                tokio::select! {
+                    r = rep.sync(&mut server, true) => Some(r.map_err(|e| e.to_string())),
+                    _ = async { loop { if ctl2.parked() { break; } tokio::time::sleep(std::time::Duration::from_millis(1)).await; } } => None,
+                }
+            })
+        }
         _ => Some(Err("HARNESS unknown action".into())),
     }
+}
+
+fn http_cfg(url: &str) -> ServerConfig {
+    ServerConfig::Remote { url: url.to_string(), client_id: Uuid::from_u128(0xC06_4854_5450_4000_8000_0000_0000_0001), encryption_secret: b"c06-secret".to_vec() }
 }
 
 fn open_observed(dir: &std::path::Path) -> (Rep, ObsCtl) {
@@ -199,8 +222,49 @@ fn kill_batch(seed: u64, idx: u64, i: u64) -> Operations {
 struct Prepared {
     _base: TempDir,
     rdir: std::path::PathBuf,
+    /// server directory, or (fresh-sync) the URL of the in-process HTTP reference server
     sdir: std::path::PathBuf,
     us: Vec<Uuid>,
+    http: Option<crate::httpref::HttpRefServer>,
+}
+
+/// Prior state for "fresh-sync": an HTTP reference server holding four versions and a snapshot at
+/// the second, and an initialised but completely empty replica directory.
+fn prepare_fresh(seed: u64, idx: u64) -> Result<Prepared, String> {
+    crate::httpref::clear_proxy_env();
+    let base = TempDir::new("c06fresh");
+    let rdir = base.path().join("replica");
+    std::fs::create_dir_all(&rdir).unwrap();
+    drop(block_on(SqliteStorage::new(&rdir, AccessMode::ReadWrite, true)).map_err(|e| e.to_string())?);
+    let us = uuids(seed, idx);
+    let srv = crate::httpref::HttpRefServer::start()?;
+    let rt = tokio::runtime::Builder::new_current_thread().enable_all().build().map_err(|e| e.to_string())?;
+    let mut writer = Replica::new(taskchampion::storage::inmemory::InMemoryStorage::new());
+    let mut h = rt.block_on(http_cfg(&srv.url()).into_server()).map_err(|e| e.to_string())?;
+    let mut state = Tasks::new();
+    for step in 0..4u64 {
+        let mut ops = Operations::new();
+        for (n, u) in us.iter().enumerate() {
+            if step == 0 {
+                ops.push(Operation::Create { uuid: *u });
+                ops.push(Operation::Update { uuid: *u, property: "status".into(), old_value: None, value: Some(if n % 2 == 0 { "pending" } else { "completed" }.into()), timestamp: ts(1) });
+            }
+            ops.push(Operation::Update { uuid: *u, property: format!("p{step}"), old_value: None, value: Some(format!("v{idx}-{step}-{n}")), timestamp: ts(2 + step as i64) });
+        }
+        for o in &ops {
+            if let Some(m) = model::from_operation(o) {
+                model::apply(&mut state, &m);
+            }
+        }
+        rt.block_on(writer.commit_operations(ops)).map_err(|e| e.to_string())?;
+        rt.block_on(writer.sync(&mut h, true)).map_err(|e| e.to_string())?;
+        if step == 1 {
+            let latest = srv.state.lock().unwrap().clients.values().next().and_then(|c| c.versions.last().map(|v| v.0)).ok_or("no version on the http server")?;
+            rt.block_on(h.add_snapshot(latest, crate::props::c12::encode_snapshot(&state))).map_err(|e| e.to_string())?;
+        }
+    }
+    let url = std::path::PathBuf::from(srv.url());
+    Ok(Prepared { _base: base, rdir, sdir: url, us, http: Some(srv) })
 }
 
 /// Build the prior state: a SQLite replica with history, and an on-disk local server that another
@@ -253,7 +317,7 @@ fn prepare(seed: u64, idx: u64) -> Result<Prepared, String> {
         }
         commit(&mut rep, ops)?;
     }
-    Ok(Prepared { _base: base, rdir, sdir, us })
+    Ok(Prepared { _base: base, rdir, sdir, us, http: None })
 }
 
 struct Reference {
@@ -270,7 +334,7 @@ fn reference(p: &Prepared, action: &str, seed: u64, idx: u64) -> Result<Referenc
     let r2 = scratch.path().join("replica");
     let s2 = scratch.path().join("server");
     copy_dir(&p.rdir, &r2);
-    copy_dir(&p.sdir, &s2);
+    let s2 = if p.http.is_some() { p.sdir.clone() } else { copy_dir(&p.sdir, &s2); s2 };
     let (calls, boundaries, commit_calls);
     {
         let (mut rep, ctl) = open_observed(&r2);
@@ -290,14 +354,44 @@ fn reference(p: &Prepared, action: &str, seed: u64, idx: u64) -> Result<Referenc
     Ok(Reference { before, after, boundaries, calls, commit_calls })
 }
 
+fn core_eq(a: &Dump, b: &Dump) -> bool {
+    a.tasks == b.tasks && a.unsynced == b.unsynced && a.base == b.base
+}
+
+/// The only states an interrupted action may leave behind: the complete before-state, the complete
+/// after-state, or — for sync and undo, which are documented as "the action proper, then a
+/// non-renumbering working-set rebuild" — tasks / operations / base version entirely after with
+/// the working set still before. Allowed states are *not* derived from wherever the implementation
+/// happens to commit: an extra commit in the middle of an action is exactly what must be caught.
 fn judge(got: &FullDump, r: &Reference, must_be_boundary: Option<usize>) -> Result<&'static str, String> {
+    let detail = |got: &FullDump| {
+        format!(
+            "vs before: tasks [{}] unsynced {}→{} base changed: {} ws {:?}→{:?}; vs after: tasks [{}] unsynced {}→{} base differs: {}",
+            model::diff_tasks(&got.d.tasks, &r.before.d.tasks),
+            r.before.d.unsynced.len(),
+            got.d.unsynced.len(),
+            got.d.base != r.before.d.base,
+            r.before.d.ws,
+            got.d.ws,
+            model::diff_tasks(&got.d.tasks, &r.after.d.tasks),
+            r.after.d.unsynced.len(),
+            got.d.unsynced.len(),
+            got.d.base != r.after.d.base,
+        )
+    };
     if let Some(c) = must_be_boundary {
-        // killed right after commit #c returned: that commit must be fully visible
-        let want = &r.boundaries[c];
-        if dumps_equal(&got.d, want) {
+        // killed right after commit #c returned Ok: that commit must be fully visible
+        let last = c + 1 == r.boundaries.len();
+        if last {
+            if dumps_equal(&got.d, &r.after.d) {
+                return Ok("after-commit");
+            }
+            return Err(format!("after the last commit (#{}) returned Ok and the process died, the reopened store is not the after-state: {}", c + 1, detail(got)));
+        }
+        if core_eq(&got.d, &r.after.d) && got.d.ws == r.before.d.ws {
             return Ok("after-commit");
         }
-        return Err(format!("after commit #{} returned Ok and the process died, the reopened store is not the state of that commit: tasks {}; unsynced {} vs {}; base {} vs {}; ws {:?} vs {:?}", c + 1, model::diff_tasks(&got.d.tasks, &want.tasks), got.d.unsynced.len(), want.unsynced.len(), got.d.base, want.base, got.d.ws, want.ws));
+        return Err(format!("after commit #{} of {} returned Ok and the process died, tasks / operations / base version are not the complete after-state (the action has a commit in its middle?): {}", c + 1, r.boundaries.len(), detail(got)));
     }
     if *got == r.before {
         return Ok("before");
@@ -305,21 +399,10 @@ fn judge(got: &FullDump, r: &Reference, must_be_boundary: Option<usize>) -> Resu
     if *got == r.after {
         return Ok("after");
     }
-    for b in &r.boundaries {
-        if dumps_equal(&got.d, b) {
-            return Ok("between-transactions");
-        }
+    if core_eq(&got.d, &r.after.d) && got.d.ws == r.before.d.ws && got.task_ops == r.after.task_ops {
+        return Ok("between-transactions");
     }
-    Err(format!(
-        "reopened store is neither the before- nor the after-state nor a transaction boundary: vs before: tasks [{}] unsynced {}→{} base {} ws {:?}→{:?}; vs after: tasks [{}]",
-        model::diff_tasks(&got.d.tasks, &r.before.d.tasks),
-        r.before.d.unsynced.len(),
-        got.d.unsynced.len(),
-        got.d.base != r.before.d.base,
-        r.before.d.ws.len(),
-        got.d.ws.len(),
-        model::diff_tasks(&got.d.tasks, &r.after.d.tasks)
-    ))
+    Err(format!("reopened store is neither the complete before-state nor the complete after-state: {}", detail(got)))
 }
 
 /// Latest version id stored by the on-disk local server (version ids are random per run, so the
@@ -334,12 +417,12 @@ fn exe() -> std::path::PathBuf {
     std::env::current_exe().expect("current exe")
 }
 
-fn sweep_case(i: u64, seed: u64, child_every: u64, out: &mut CaseOut) {
-    let action = ACTIONS[(i % ACTIONS.len() as u64) as usize];
+fn sweep_case(i: u64, seed: u64, child_every: u64, fresh: bool, out: &mut CaseOut) {
+    let action = if fresh { "fresh-sync" } else { ACTIONS[(i % ACTIONS.len() as u64) as usize] };
     let idx = i;
-    let replay = json!({"stratum": "sweep", "index": i, "action": action});
+    let replay = json!({"stratum": if fresh { "fresh-sync" } else { "sweep" }, "index": i, "action": action});
     out.evaluations = 0;
-    let p = match prepare(seed, idx) {
+    let p = match if fresh { prepare_fresh(seed, idx) } else { prepare(seed, idx) } {
         Ok(p) => p,
         Err(e) => {
             out.inconclusive = Some(format!("prepare: {e}"));
@@ -372,7 +455,7 @@ fn sweep_case(i: u64, seed: u64, child_every: u64, out: &mut CaseOut) {
             let r2 = scratch.path().join("replica");
             let s2 = scratch.path().join("server");
             copy_dir(&p.rdir, &r2);
-            copy_dir(&p.sdir, &s2);
+            let s2 = if p.http.is_some() { p.sdir.clone() } else { copy_dir(&p.sdir, &s2); s2 };
             if child {
                 let st = Command::new(exe())
                     .args(["worker", "c06", r2.to_str().unwrap(), s2.to_str().unwrap(), action, &seed.to_string(), &idx.to_string(), &k.to_string(), mode])
@@ -554,7 +637,16 @@ pub fn run(ctx: &Ctx) -> Outcome {
         let child_every = if ctx.tier == crate::report::Tier::Quick { 4 } else { 1 };
         run_cases(&mut acc, "sweep", hi - lo, |i| {
             let mut out = CaseOut::new();
-            sweep_case(i + lo, seed, child_every, &mut out);
+            sweep_case(i + lo, seed, child_every, false, &mut out);
+            out
+        });
+    }
+    if want("fresh-sync") {
+        let (lo, hi) = range(ctx.tier.pick(3, 40));
+        let child_every = if ctx.tier == crate::report::Tier::Quick { 4 } else { 1 };
+        run_cases(&mut acc, "fresh-sync", hi - lo, |i| {
+            let mut out = CaseOut::new();
+            sweep_case(i + lo, seed, child_every, true, &mut out);
             out
         });
     }
@@ -575,7 +667,7 @@ pub fn run(ctx: &Ctx) -> Outcome {
     }
     Outcome {
         level: "fault_enumeration",
-        rule: "sweep: for each of {commit, undo, rebuild(false), rebuild(true), sync} on a prepared SQLite replica (pending work, undo points, stale working-set entries, incoming versions on an on-disk local server): every storage call index x {error, dropped future} in-process and x {abort() before the call} in a child process (quick: every commit call and every 4th other call), plus abort() right after every commit returned; reopened store compared with before / after / transaction-boundary dumps. kill: a child commits state-independent batches and ACKs each, SIGKILL at random instants, reopened store compared with the model of the acknowledged commits (+ optionally the one in flight). evaluations = faulted runs; non-trivial = the action changes the store; distinct by (action, case)".into(),
+        rule: "sweep: for each of {commit, undo, rebuild(false), rebuild(true), sync} on a prepared SQLite replica, and for the first sync of a brand-new replica from an HTTP server holding a snapshot and later versions (fresh-sync) (pending work, undo points, stale working-set entries, incoming versions on an on-disk local server): every storage call index x {error, dropped future} in-process and x {abort() before the call} in a child process (quick: every commit call and every 4th other call), plus abort() right after every commit returned; reopened store compared with before / after / transaction-boundary dumps. kill: a child commits state-independent batches and ACKs each, SIGKILL at random instants, reopened store compared with the model of the acknowledged commits (+ optionally the one in flight). evaluations = faulted runs; non-trivial = the action changes the store; distinct by (action, case)".into(),
         exhaustive: None,
         acc,
         assumptions: vec![
